@@ -96,8 +96,8 @@ Fixpoint nodes_eq_at (a b : list node) (i : Z) : Z :=
   end.
 
 (* ------------------------------------------------------------------ wire *)
-(* 1511: (table) -> (ok first_bad_abscissa first_bad_ordinate origin VV(0) VV(-1) size)   table nodes dyadic ((n k) (n k)) *)
-Definition wire_1511 (x : sx) : sx :=
+(* 1514: (table) -> (ok first_bad_abscissa first_bad_ordinate origin VV(0) VV(-1) size)   table nodes dyadic ((n k) (n k)) *)
+Definition wire_1514 (x : sx) : sx :=
   match x with
   | L [table] =>
       let t := map to_node_d (to_list table) in
